@@ -55,7 +55,7 @@ extern "C" int h_components(unsigned d, double* a, double* o){
     return 0;
   }catch(...){ return 1; }
 }
-// op: 0 A+B, 1 A-B, 2 -A, 3 A*s, 4 s*A, 5 A+=B, 6 A-=B, 7 A*=s, 8 A/=s, 9 Transpose, 10 Real, 11 Imag
+// op: 0 A+B, 1 A-B, 2 -A, 3 A*s, 4 s*A, 5 A+=B, 6 A-=B, 7 A*=s, 8 A/=s, 9 Transpose, 10 Real, 11 Imag, 12.. compound/aliased expression forms
 extern "C" int h_linop(unsigned op, unsigned d, double* a, double* b, double s, double* o){
   try{
     SU_vector A(d,a), B(d,b), O(d,o);
@@ -72,6 +72,17 @@ extern "C" int h_linop(unsigned op, unsigned d, double* a, double* b, double s, 
       case 9: A.Transpose(); O = A; break;
       case 10: O = A.Real(); break;
       case 11: O = A.Imag(); break;
+      // compound assignment from expressions, and expressions assigned onto one of their own operands
+      case 12: A += B*s; O = A; break;
+      case 13: A -= s*B; O = A; break;
+      case 14: A += A*s; O = A; break;
+      case 15: A -= s*A; O = A; break;
+      case 16: A += A+B; O = A; break;
+      case 17: A -= A-B; O = A; break;
+      case 18: A = A+B; O = A; break;
+      case 19: A = B-A; O = A; break;
+      case 20: A = -A; O = A; break;
+      case 21: A = A*s; O = A; break;
       default: return 2;
     }
     return 0;
